@@ -43,6 +43,11 @@ def sample_points(rnd, cls, n):
         ps = circgen.random_params(rnd, cls)
         if i == 0:
             ps = dict(cls.get_default_values())
+        elif i % 3 == 2:
+            # towards the corner of the limit box: exponents close to (and at) their upper limit
+            for k in ps:
+                if k in ("n", "a", "b", "n_B", "n_A") and cls.get_default_upper_limit(k) <= 1.0:
+                    ps[k] = circgen.round6(rnd.choice([rnd.uniform(0.85, 1.0), rnd.uniform(0.95, 1.0), 1.0]))
         f = 10 ** rnd.uniform(-6, 9)
         pts.append((ps, f))
     return pts
@@ -177,7 +182,7 @@ def oracle(ctx, rnd, els):
     for sym, cls in els.items():
         if issubclass(cls, Container):
             continue
-        for ps, f in sample_points(rnd, cls, 25 if big else 3):
+        for ps, f in sample_points(rnd, cls, (60 if ctx.broken else 25) if big else 3):
             e = cls(**ps)
             with np.errstate(all="ignore"):
                 z = complex(e._impedance(np.array([f]), **ps)[0])
@@ -190,6 +195,9 @@ def oracle(ctx, rnd, els):
             if benign(z) and benign(zs) and relerr(z, zs) > 1e-6 and not well_conditioned(lambda x: e._impedance(np.array([x]), **ps)[0], f):
                 ctx.count("oracle:skipped-ill-conditioned")
                 continue
+            if z == 0 and benign(zs) and well_conditioned(lambda x: complex(sym_eval(e, x)), f):
+                ctx.add_failing("element-vs-equation", {"cdc": e.to_string(17), "f": f}, observed="exactly 0", expected=str(zs),
+                                clause="numerically computed impedance equals the documented closed-form equation")
             if benign(z) and benign(zs) and relerr(z, zs) > 1e-6:
                 ctx.add_failing("element-vs-equation", {"cdc": e.to_string(17), "f": f}, observed=str(z), expected=str(zs),
                                 clause="numerically computed impedance equals the documented closed-form equation")
@@ -198,7 +206,9 @@ def oracle(ctx, rnd, els):
     from pyimpspec import parse_cdc
     tlm_codes = ["RTlm", "Tlm{X_1=R(RC)}", "R(C[RTlm{X_2=R,Zeta=(RQ)}])", "Tlm{X_1=R,X_2=R,Z_A=Q,Z_B=R,Zeta=Q}L"]
     for _ in range(150 if big else 25):
-        t = circgen.fill(rnd, circgen.random_shape(rnd, rnd.randint(1, 6)), symbols)
+        # every other circuit carries labels drawn from a small pool, so that several elements (of the same or of different
+        # classes) share a label: their parameters share display names but never values
+        t = circgen.fill(rnd, circgen.random_shape(rnd, rnd.randint(1, 6)), symbols, **({"labels": ["a", "dl", "film"]} if _ % 2 else {}))
         c = Circuit(circgen.build(t))
         if _ % 3 == 0 and _ // 3 < (len(tlm_codes) if big else 2):
             c = parse_cdc(tlm_codes[(_ // 3 + rnd.randrange(len(tlm_codes))) % len(tlm_codes)])
